@@ -141,6 +141,25 @@ mut("magicmem_cl_port_priority_skip", "pymtl3/stdlib/mem/MagicMemoryCL.py",
     "            s.mem.write( req.addr, len_, req.data[0:len_<<3] )\n            # FIXME do we really set len=0 in response when doing subword wr?\n            # resp = resp_classes[i]( req.type_, req.opaque, 0, req.len, 0 )\n            resp = resp_classes[i]( req.type_, req.opaque, 0, 0, 0 )\n\n          #\n          # AMOs",
     "            s.mem.write( req.addr, len_, req.data[0:len_<<3] if i < 3 else req.data[0:8] )\n            # FIXME do we really set len=0 in response when doing subword wr?\n            # resp = resp_classes[i]( req.type_, req.opaque, 0, req.len, 0 )\n            resp = resp_classes[i]( req.type_, req.opaque, 0, 0, 0 )\n\n          #\n          # AMOs", ["C18"])
 
+mut("procrtl_no_byp_m_rs2", "examples/ex03_proc/ProcCtrlRTL.py",
+    "        elif s.val_M & ( s.inst_D[ RS2 ] == s.rf_waddr_M ) & ( s.rf_waddr_M != 0 ) \\\n                     & s.rf_wen_pending_M:    s.op2_byp_sel_D @= byp_m",
+    "        elif s.val_M & ( s.inst_D[ RS2 ] == s.rf_waddr_M ) & ( s.rf_waddr_M != 0 ) \\\n                     & s.rf_wen_pending_M & False:    s.op2_byp_sel_D @= byp_m", ["C20"])
+mut("procrtl_no_ld_use_stall_rs2", "examples/ex03_proc/ProcCtrlRTL.py",
+    "      s.ostall_hazard_D  @= s.ostall_ld_X_rs1_D   | s.ostall_ld_X_rs2_D | \\",
+    "      s.ostall_hazard_D  @= s.ostall_ld_X_rs1_D   | \\", ["C20"])
+mut("procrtl_squash_ignores_stall", "examples/ex03_proc/ProcCtrlRTL.py",
+    "      s.osquash_X @= s.val_X & ~s.stall_X & s.pc_redirect_X", "      s.osquash_X @= s.val_X & s.pc_redirect_X", ["C20"])
+mut("procrtl_x0_bypass", "examples/ex03_proc/ProcCtrlRTL.py",
+    "        if   s.val_X & ( s.inst_D[ RS1 ] == s.rf_waddr_X ) & ( s.rf_waddr_X != 0 ) \\",
+    "        if   s.val_X & ( s.inst_D[ RS1 ] == s.rf_waddr_X ) \\", ["C20"])
+mut("procfl_srl_mask", "examples/ex03_proc/ProcFL.py",
+    "          s.R[inst.rd] = s.R[inst.rs1] >> (s.R[inst.rs2].uint() & 0x1F)",
+    "          s.R[inst.rd] = s.R[inst.rs1] >> (s.R[inst.rs2].uint() & 0x3F)", ["C20"])
+mut("proccl_bne_target", "examples/ex03_proc/ProcCL.py",
+    "              s.redirected_pc_DXM = pc + sext(inst.b_imm, 32)",
+    "              s.redirected_pc_DXM = pc + zext(inst.b_imm, 32)", ["C20"])
+
+
 def load_extra():
   p = os.path.join(VERIF, "tools", "mutants_extra.json")
   if os.path.exists(p):
